@@ -220,6 +220,48 @@ def run(tier, seed, rng):
                                     case={'kind': 'sync', 'W': W}, model=2 * ncalls, impl={r: len(v) for r, v in per.items()},
                                     oracle_rejects=True, correspondence=CORRESPONDENCES[1], theorems=['trace_transparent'],
                                     oracle='2 barriers per call, values unchanged'))
+    # re-entrancy: a traced function entered again while an earlier call to it is still running (recursion, mutual recursion)
+    for k in range(40 if tier == 'quick' else 400):
+        depth = rng.randint(1, 4)
+        durs = [(rng.choice([1, 2, 4, 8, 16]), rng.choice([1, 2, 4, 32])) for _ in range(depth + 1)]
+        mutual = rng.random() < 0.5
+        case = {'kind': 'reentrant', 'depth': depth, 'durs': durs, 'mutual': mutual}
+        now = [1000.0]
+        saved_time = tr.time
+        tr.time = types.SimpleNamespace(time=lambda: now[0])
+        try:
+            tr.clear_trace()
+
+            @tr.trace()
+            def walk(d):
+                now[0] += durs[d][0]
+                r = (other if mutual else walk)(d - 1) if d > 0 else 0
+                now[0] += durs[d][1]
+                return r + 1
+
+            @tr.trace()
+            def other(d):
+                now[0] += durs[d][0]
+                r = walk(d - 1) if d > 0 else 0
+                now[0] += durs[d][1]
+                return r + 1
+            ret = walk(depth)
+            got = {av: tr.get_trace(average=av) for av in (False, True)}
+        finally:
+            tr.time = saved_time
+            tr.clear_trace()
+        # expected: the call at level d lasts durs[d][0] + (level d-1) + durs[d][1]
+        el, exp = 0, {}
+        for d in range(depth + 1):
+            el = durs[d][0] + el + durs[d][1]
+            nm = 'other' if (mutual and (depth - d) % 2 == 1) else 'walk'
+            exp.setdefault(nm, []).append(float(el))
+        want = {False: {n_: sum(v) for n_, v in exp.items()}, True: {n_: sum(v) / len(v) for n_, v in exp.items()}}
+        cov.add(case, True, sample_cap=2); cov.count('op_kind', 'reentrant')
+        if ret != depth + 1 or got != want:
+            failures.append(Failure(what=f're-entrant traced calls: reported {got}, expected {want} (return {ret}, expected {depth + 1})'[:500], case=case,
+                                    model=want, impl=got, oracle_rejects=True, correspondence=CORRESPONDENCES[0], theorems=THEOREMS,
+                                    oracle='each completed call appends its own elapsed time (scripted clock)'))
     return cov, failures
 
 
